@@ -119,7 +119,7 @@ theorem step_findProp (s : State) (op : Op) (hne : ∀ dt stk, op ≠ .endBlock 
         · simp [hid]
     · exact Or.inl rfl
   | cancel pid' who =>
-    simp only [step, Model.C15.ofExcept]
+    simp only [step, Model.C15.ofExcept, cancelRun_eq]
     split
     · rename_i s' h
       unfold cancel at h
